@@ -113,9 +113,12 @@ pub fn begin(prefix: Vec<u8>, horizon: u64) {
 }
 
 fn choose(g: &mut Global, from: Option<usize>) -> Option<usize> {
-    // parking_lot's RwLock prefers writers: once a writer waits for a lock, new (non-recursive) readers of that
-    // lock block behind it. A pending exclusive request of ANOTHER thread therefore disables a plain shared one.
-    let writers_waiting: Vec<(usize, usize)> = g.threads.iter().enumerate().filter(|(_, s)| s.started && !s.finished).filter_map(|(i, s)| s.pending.filter(|p| p.kind == Kind::Exclusive).map(|p| (i, p.addr))).collect();
+    // parking_lot's RwLock prefers writers: once a writer WAITS for a lock (it found the lock held and parked), new
+    // (non-recursive) readers of that lock block behind it. A pending exclusive request of ANOTHER thread that cannot
+    // be granted right now therefore disables a plain shared one. A pending exclusive request on a FREE lock is not a
+    // waiting writer - that thread simply has not taken the lock yet - and disables nothing (treating it as waiting
+    // would hide every interleaving in which a reader slips in between a thread's shared and exclusive acquisitions).
+    let writers_waiting: Vec<(usize, usize)> = g.threads.iter().enumerate().filter(|(_, s)| s.started && !s.finished).filter_map(|(i, s)| s.pending.filter(|p| p.kind == Kind::Exclusive && !can(p)).map(|p| (i, p.addr))).collect();
     let enabled: Vec<usize> = g
         .threads
         .iter()
